@@ -196,6 +196,8 @@ pub fn case_from_bytes(p: &Profile, data: &[u8]) -> Option<Case> {
         keep_going_after_early_destroy: p.keep_going_after_early_destroy,
         despawn_without_quiescence: false,
         unwinding_drops: s.pct(15),
+        consumer_probe_polls: s.pct(50),
+        chained_streams: s.pct(40),
     };
     let ncallers = s.range(p.callers.0, p.callers.1);
     let mut callers = vec![];
